@@ -5,7 +5,7 @@ from __future__ import annotations
 
 import itertools
 import random
-from typing import Any, Callable, Dict, List, Optional, Tuple
+from typing import Any, Callable, Dict, List, Optional, Sequence, Tuple
 
 from fjverif import engines
 from fjverif.common import case_hash, rng_for
@@ -19,19 +19,26 @@ def cell_bits(kind: str) -> int:
     return 1 if kind == 'bit' else 4
 
 
-def variables_for_single(rng: random.Random, app_spec: Spec, n: int) -> Tuple[List[Var], Dict[str, List[Var]]]:
-    """one variable per variable operand (a little longer than the macro uses, so that "[:n]" is checked), plus bystanders."""
+def variables_for_single(rng: random.Random, app_spec: Spec, n: int, consts: Optional[Dict[str, int]] = None,
+                         hidden: Sequence[Var] = ()) -> Tuple[List[Var], Dict[str, List[Var]]]:
+    """one variable per variable operand (a little longer than the macro uses, so that "[:n]" is checked), plus bystanders
+    (and the library's hidden state variables, when the caller names them)."""
     variables: List[Var] = []
     pool: Dict[str, List[Var]] = {'bit': [], 'hex': []}
     for index, op in enumerate(app_spec.var_operands()):
-        kind = 'bit' if op.kind == 'bitaddr' else op.kind
-        cells = max(1, int(eval(op.length, {'n': n})))  # noqa: S307
+        kind = harness.POOL_OF_KIND[op.kind]
+        if kind == 'hidden':
+            continue
+        cells = max(1, int(eval(op.length, {'n': n, **(consts or {})})))  # noqa: S307
         var = Var(f'v{index}', kind, cells + rng.choice([0, 1, 2]))
         variables.append(var)
-        pool[kind].append(var)
+        pool.setdefault(kind, []).append(var)
     for kind in ('bit', 'hex'):
         var = Var(f'g{kind}', kind, rng.choice([1, 3]))
         variables.append(var)
+    if hidden:
+        variables.extend(hidden)
+        pool['hidden'] = list(hidden)
     return variables, pool
 
 
@@ -51,7 +58,10 @@ def single_value_plan(app: App, variables: List[Var]) -> Tuple[Callable[[int, ra
     def plan(pass_index: int, rng: random.Random) -> Dict[str, int]:
         values: Dict[str, int] = {}
         for var in variables:  # everything random first (upper cells, bystanders, write-only destinations)
-            values[var.name] = harness.boundary_value(rng, var.bits_per_cell * var.length)
+            if var.hidden:  # library state is clean (0) unless the macro documents it as an input
+                values[var.name] = harness.boundary_value(rng, by_var[var.name]) if by_var.get(var.name) else 0
+            else:
+                values[var.name] = harness.boundary_value(rng, var.bits_per_cell * var.length)
         if exhaustive:
             rest = pass_index
             for name in names:
@@ -138,7 +148,8 @@ class Recorder:
         return monitor
 
 
-def shard_single(rec: Recorder, specs: List[Spec], spec_indices: List[int], spec_seed: Any, tier: str, journal: Any) -> None:
+def shard_single(rec: Recorder, specs: List[Spec], spec_indices: List[int], spec_seed: Any, tier: str, journal: Any,
+                 hidden: Sequence[Var] = ()) -> None:
     rng = rng_for(*spec_seed)
     for index in spec_indices:
         spec = specs[index]
@@ -149,12 +160,23 @@ def shard_single(rec: Recorder, specs: List[Spec], spec_indices: List[int], spec
             rng.shuffle(combos)
             combos = combos[:2] if len(n_values) > 1 else combos[:1]
         for n, w in combos:
-            variables, pool = variables_for_single(rng, spec, n)
             app = None
-            for _ in range(10):
-                app = harness.bind(rng, spec, n, w, pool)
-                if app is not None:
-                    break
+            if hidden:
+                # (C04) operand lengths may depend on the constants: draw those first
+                for _ in range(40):
+                    consts = harness.draw_consts(rng, spec, n, w)
+                    if consts is None:
+                        continue
+                    variables, pool = variables_for_single(rng, spec, n, consts, hidden)
+                    app = harness.bind(rng, spec, n, w, pool, consts)
+                    if app is not None:
+                        break
+            else:
+                variables, pool = variables_for_single(rng, spec, n)
+                for _ in range(10):
+                    app = harness.bind(rng, spec, n, w, pool)
+                    if app is not None:
+                        break
             if app is None:
                 rec.count('unbindable')
                 continue
@@ -181,7 +203,8 @@ def shard_single(rec: Recorder, specs: List[Spec], spec_indices: List[int], spec
                 rec.count('aliased_programs')
 
 
-def shard_sequence(rec: Recorder, specs: List[Spec], seed: Any, programs: int, tier: str, journal: Any, kinds: List[str], needs: str) -> None:
+def shard_sequence(rec: Recorder, specs: List[Spec], seed: Any, programs: int, tier: str, journal: Any, kinds: List[str], needs: str,
+                   hidden: Sequence[Var] = ()) -> None:
     rng = rng_for(*seed)
     for index in range(programs):
         w = rng.choice([16, 32, 64]) if needs == 'none' else rng.choice([32, 64])
@@ -190,16 +213,21 @@ def shard_sequence(rec: Recorder, specs: List[Spec], seed: Any, programs: int, t
         pool: Dict[str, List[Var]] = {'bit': [], 'hex': []}
         for kind in kinds:
             for k in range(rng.choice([3, 4, 5])):
-                var = Var(f'{kind[0]}{k}', kind, rng.choice([1, 2, 4, 6, 8] if kind == 'bit' else [1, 2, 3, 4]))
+                var = Var(f'{kind[0]}{k}', kind, rng.choice([1, 2, 4, 6, 8] if kind == 'bit' else [4, 8, 12, 16] if kind == 'field'
+                                                            else [1, 2, 3, 4]))
                 variables.append(var)
-                pool[kind].append(var)
+                pool.setdefault(kind, []).append(var)
+        if hidden:
+            variables.extend(hidden)
+            pool['hidden'] = list(hidden)
         count = rng.choice([10, 20, 40]) if w > 16 else rng.choice([4, 8])
         apps = harness.build_apps(rng, usable, w, count, pool)
         if not apps:
             continue
 
         def plan(pass_index: int, prng: random.Random, variables: List[Var] = variables) -> Dict[str, int]:
-            return {v.name: harness.boundary_value(prng, v.bits_per_cell * v.length) for v in variables}
+            return {v.name: (harness.boundary_value(prng, v.length) if v.kind == 'field' and v.length and prng.random() < 0.1 else 0)
+                    if v.hidden else harness.boundary_value(prng, v.bits_per_cell * v.length) for v in variables}
 
         passes = 400 if tier == 'quick' else 4000
         mon = rec.program(apps, variables, w, init_text(needs, w), passes, plan, rng, f'sequence#{index}', journal,
